@@ -101,6 +101,13 @@ Definition max_dist_latlon (r : T) (ll : list (list T)) : T :=
   ndiv O (chordal_to_great_circle (box_diam (latlon2pos r ll)) r) (nlit O 3 0).
 Definition std_bins (latlon : bool) (r : T) (pos : list (list T)) : list T :=
   linspace0 (if latlon then max_dist_latlon r pos else max_dist_euclid pos) (Z.to_nat (sturges (shape1 pos))).
+(* standard_bins with the user overrides bin_no / max_dist (max_dist is given in the unit r of geo_scale for lat-lon) *)
+Definition std_bins_kw (latlon : bool) (r : T) (pos : list (list T)) (bin_no : option nat) (max_dist : option T) : list T :=
+  linspace0 (match max_dist with
+             | Some m => m
+             | None => if latlon then max_dist_latlon r pos else max_dist_euclid pos
+             end)
+            (match bin_no with Some k => k | None => Z.to_nat (sturges (shape1 pos)) end).
 (* lat-lon: the kernel always works in radians *)
 Definition pre_edges (latlon : bool) (r : T) (edges : list T) : list T :=
   if latlon then map (fun e => ndiv O e r) edges else edges.
